@@ -2,7 +2,8 @@
    Property theorems only; every proof is `exact <lemma>`; Print Assumptions under each. *)
 From Coq Require Import List Bool Arith.
 Import ListNotations.
-Require Import Pyrefact.MiniPyModel Pyrefact.MiniPyProofs Pyrefact.RulesFlowModel Pyrefact.RulesFlowProofs.
+Require Import Pyrefact.MiniPyModel Pyrefact.MiniPyProofs Pyrefact.RulesFlowModel Pyrefact.RulesFlowProofs
+               Pyrefact.RulesFlowProofs2.
 
 (* T02.0  core.is_blocking (as modelled on the fragment) is sound for the executable semantics: a block
    with a blocking statement never completes normally, whatever the oracle answers. *)
@@ -95,3 +96,29 @@ Theorem T02_8_early_continue_preserves :
   forall p, equiv p (early_continue_model p).
 Proof. exact early_continue_preserves. Qed.
 Print Assumptions T02_8_early_continue_preserves.
+
+(* T02.9  fixes.breakout_common_code_in_ifs (finding F02-20): moving the common FIRST statement of both
+   branches in front of the `if` reorders it with the evaluation of the test: refuted.  Sound for every
+   program in which each statement moved before an `if` commutes with the tests it passes (literal test, or
+   a constant assignment to a variable the test does not read); moves of a common LAST statement behind the
+   `if` (decisions B, D, E of the rule) need no side condition and are covered by the same theorem. *)
+Theorem T02_9_breakout_common_code_refuted :
+  exists p, ~ obs_equiv p (breakout_common_code_model p).
+Proof. exact breakout_common_code_refuted. Qed.
+Print Assumptions T02_9_breakout_common_code_refuted.
+
+Theorem T02_9_breakout_common_code_partial :
+  forall p, bc_safe p = true -> equiv p (breakout_common_code_model p).
+Proof. exact breakout_common_code_partial. Qed.
+Print Assumptions T02_9_breakout_common_code_partial.
+
+Example T02_9_partial_nontrivial_tail :
+  let p := [SIf (Unknown 1 [0]) [SEv 2 []; SEv 1 [0]] [SEv 3 []; SEv 1 [0]]; SEv 4 []] in
+  bc_safe p = true /\ breakout_common_code_model p = [SIf (Unknown 1 [0]) [SEv 2 []] [SEv 3 []]; SEv 1 [0]; SEv 4 []].
+Proof. exact breakout_partial_nontrivial_tail. Qed.
+
+Example T02_9_partial_nontrivial_head :
+  let p := [SIf (Unknown 1 [1]) [SAssign 0 (RVal (VBool true)); SEv 2 [0]] [SAssign 0 (RVal (VBool true)); SEv 3 [0]]] in
+  bc_safe p = true /\
+  breakout_common_code_model p = [SAssign 0 (RVal (VBool true)); SIf (Unknown 1 [1]) [SEv 2 [0]] [SEv 3 [0]]].
+Proof. exact breakout_partial_nontrivial_head. Qed.
